@@ -102,6 +102,17 @@ struct Rec {
 };
 inline Rec R;
 
+// FNV-1a over the object representation (C20: a const operation leaves the bytes of the container unchanged)
+inline long repHash(const void *p, size_t n) {
+  const unsigned char *b = static_cast<const unsigned char *>(p);
+  unsigned long long h = 1469598103934665603ULL;
+  for (size_t i = 0; i < n; ++i) {
+    h ^= b[i];
+    h *= 1099511628211ULL;
+  }
+  return static_cast<long>(h % 1000000007ULL);
+}
+
 struct Internal {  // RAII: allocations made inside are the harness's own
   Internal() { ++R.internal; }
   ~Internal() { --R.internal; }
